@@ -2,8 +2,9 @@
 # usage: seedkeep.py <ID> <n> <caught-by: comma list or "none"> <detail>
 import json, os, shutil, sys
 ID, n, caught, detail = sys.argv[1], sys.argv[2], sys.argv[3], sys.argv[4]
+dn = sys.argv[5] if len(sys.argv) > 5 else n  # number under which it is kept
 src = f"/tmp/wtout/{ID}"
-dst = f"/verif/seeded/{ID}-m{n}"
+dst = f"/verif/seeded/{ID}-m{dn}"
 if os.path.exists(dst):
     shutil.rmtree(dst)
 os.makedirs(dst)
